@@ -40,6 +40,76 @@ pub fn build_all_regenerated(first: &Mol, m: &Mol) -> Option<Built> {
     Some(Built { conn, uff, rb })
 }
 
+/// The molecule defined the scripting way: atoms, coordinates, and a bond table installed through `set_bond_orders`
+/// (no perception: valences, orders and neighbours are whatever the table says).
+pub fn build_all_explicit(m: &Mol, bonds: &[(usize, usize, f64)]) -> Option<Built> {
+    let syms = m.symbols();
+    let refs: Vec<&str> = syms.iter().map(|x| x.as_str()).collect();
+    let n = m.n();
+    let mut mat = vec![0.0; n * n];
+    for (i, j, o) in bonds { let (a, b) = if i < j { (*i, *j) } else { (*j, *i) }; mat[a * n + b] = *o; mat[b * n + a] = *o; }
+    let w = catch(|| {
+        let mut w = Wrapper::from_atomic_symbols(&refs);
+        w.set_coordinates(m.xs.iter().flat_map(|p| p.to_vec()).collect());
+        w.set_bond_orders(mat.clone());
+        w
+    })?;
+    let mol = w.molecule();
+    let conn = connectivity(mol);
+    let uff = catch(|| UFF::new(mol)).map(|f| (types_text(&f), f.verif_terms()));
+    let rb = catch(|| RB::new(mol)).map(|f| f.verif_terms()).unwrap_or_default();
+    Some(Built { conn, uff, rb })
+}
+
+/// Bond tables no perception would produce, in two families: (a) a trigonal centre (C, N, B) whose three neighbours (O, N, S, C)
+/// carry zero to two hydrogens each — acids, amides, guanidinium-, oxonium- and iminium-like centres, with every mix of bond
+/// orders; (b) two aromatic rings of C and N joined by a bond of any order
+pub fn explicit_family(rng: &mut Rng) -> (Mol, Vec<(usize, usize, f64)>) {
+    let mut zs: Vec<usize> = vec![]; let mut xs: Vec<[f64; 3]> = vec![]; let mut bonds: Vec<(usize, usize, f64)> = vec![];
+    if rng.chance(0.6) {
+        zs.push(*rng.pick(&[6usize, 6, 7, 5])); xs.push([0.0, 0.0, 0.0]);
+        let pyr = rng.range(0.02, 0.3);
+        // a third of the centres are "two unlike neighbours of one element": e.g. carbon between a bare oxygen and a doubly
+        // substituted one — what a rule that asks "is ANY neighbour of type X" sees differently from "is the FIRST neighbour"
+        let unlike = rng.chance(0.34);
+        let twin = *rng.pick(&[8usize, 8, 7, 16]);
+        for k in 0..3 {
+            let a = 2.0 * std::f64::consts::PI * k as f64 / 3.0 + rng.range(-0.08, 0.08);
+            let z = if unlike && k < 2 { twin } else { *rng.pick(&[8usize, 8, 7, 16, 6]) };
+            let r = radius(zs[0]) + radius(z);
+            let p = [r * a.cos(), r * a.sin(), -pyr * r];
+            let me = zs.len();
+            zs.push(z); xs.push(p);
+            bonds.push((0, me, *rng.pick(&[1.0, 1.0, 1.5, 2.0])));
+            let nh = if unlike && k == 0 { 2 } else if unlike && k == 1 { 0 } else { rng.below(3) };
+            for h in 0..nh {
+                let b = a + if nh == 1 { rng.range(-0.3, 0.3) } else { (h as f64 - 0.5) * 2.0 * rng.range(0.8, 1.1) };
+                let rh = radius(z) + radius(1);
+                zs.push(1); xs.push([p[0] + rh * b.cos(), p[1] + rh * b.sin(), p[2] + rng.range(-0.25, 0.25)]);
+                bonds.push((me, zs.len() - 1, 1.0));
+            }
+        }
+        (Mol { name: "decorated-trigonal-centre".into(), zs, xs }, bonds)
+    } else {
+        let mut start = vec![];
+        for ring_no in 0..2 {
+            let n = *rng.pick(&[5usize, 6]);
+            let r = 1.39 / (2.0 * (std::f64::consts::PI / n as f64).sin());
+            let cx = ring_no as f64 * (2.0 * r + 1.45);
+            let first = zs.len(); start.push((first, n));
+            for k in 0..n {
+                // atom 0 of each ring points at the other ring
+                let a = 2.0 * std::f64::consts::PI * k as f64 / n as f64 + if ring_no == 0 { 0.0 } else { std::f64::consts::PI };
+                zs.push(if rng.chance(0.25) { 7 } else { 6 });
+                xs.push([cx + r * a.cos(), r * a.sin(), if ring_no == 1 { rng.range(-0.4, 0.4) * a.sin() } else { 0.0 }]);
+            }
+            for k in 0..n { bonds.push((first + k, first + (k + 1) % n, 1.5)); }
+        }
+        bonds.push((start[0].0, start[1].0, *rng.pick(&[1.0, 1.0, 1.5, 2.0])));
+        (Mol { name: "joined-aromatic-rings".into(), zs, xs }, bonds)
+    }
+}
+
 pub fn build_all(m: &Mol) -> Option<Built> {
     let mol = catch(|| m.build())?;
     let conn = connectivity(&mol);
@@ -143,11 +213,18 @@ pub fn run(out: &mut Out, seed: u64, tier: &str) {
         }
     }
     for _ in 0..n_random { let m = random_mol(&mut rng); let m = if rng.chance(0.5) { distort(&m, rng.range(0.0, 0.2), &mut rng) } else { m }; mols.push(m); }
+    // far-apart fragments and one long chain: "exactly one pair term for every unordered pair" has no distance limit
+    for sep in [13.0, 27.0, 60.0, 500.0, 2.0e4] {
+        let a = mols[rng.below(10)].clone(); let b = mols[rng.below(10)].clone();
+        mols.push(union(&a, &moved(&b, &random_rotation(&mut rng), [sep, -0.4 * sep, 0.1 * sep])));
+    }
+    mols.push(alkane(12));
+    if tier == "thorough" { mols.push(alkane(24)); }
     let (mut n, mut panics) = (0usize, 0usize);
     let mut type_hist: std::collections::BTreeMap<String, usize> = Default::default();
     let mut kind_hist: std::collections::BTreeMap<String, usize> = Default::default();
     for m in mols.iter() {
-        if m.n() > 40 { continue; }
+        if m.n() > 80 { continue; }
         let b = match build_all(m) { Some(b) => b, None => continue };
         n += 1;
         let uff_text = match &b.uff {
@@ -180,6 +257,21 @@ pub fn run(out: &mut Out, seed: u64, tier: &str) {
         oracle_c11(out, m, &b);
         n_regen += 1;
     }
+    // molecules defined by an explicit bond table (the scripting interface): the model derives its lists from the same table
+    let mut n_explicit = 0usize;
+    for _ in 0..(if tier == "thorough" { 600 } else { 80 }) {
+        let (m, bonds) = explicit_family(&mut rng);
+        if m.min_distance() < 0.5 { continue; }
+        let b = match build_all_explicit(&m, &bonds) { Some(b) => b, None => continue };
+        let mut uniq: Vec<(usize, usize, f64)> = vec![];
+        for (i, j, o) in &bonds { let (a, c) = if i < j { (*i, *j) } else { (*j, *i) }; uniq.push((a, c, *o)); }
+        uniq.sort_by(|x, y| (x.0, x.1).cmp(&(y.0, y.1)));
+        let uff_text = match &b.uff { Some((types, terms)) => format!("types {} terms {}", types, sorted_terms(terms)), None => "PANIC".to_string() };
+        out.case(&format!("build uff {} ; {}", m.line(), bonds_text(&uniq)), &uff_text);
+        oracle_c11(out, &m, &b);
+        n_explicit += 1;
+    }
+    out.stat("molecules_with_explicit_bond_tables", n_explicit);
     out.stat("molecules_reperceived_through_the_wrapper", n_regen);
     out.stat("molecules", n);
     out.stat("uff_construction_aborts", panics);
